@@ -131,6 +131,10 @@ func runWithdraw(ctx *action.Context, tx action.RawTx) (bool, action.Response) {
 		return false, action.Response{Log: err.Error()}
 	}
 
+	if v := draw.Stake.Value.BigInt(); v.Sign() < 0 || !v.IsInt64() {
+		return false, action.Response{Log: action.ErrInvalidAmount.Error()}
+	}
+
 	if ctx.EvidenceStore.IsFrozenValidator(draw.ValidatorAddress) {
 		return false, action.Response{Log: evidence.ErrFrozenValidator.Error()}
 	}
